@@ -29,7 +29,8 @@ func (s *Sess) WalState(after string, rec []interface{}) Ev {
 			}
 		}
 		segs = append(segs, sg{Ev{"id": int(vs.ID), "seq": int(vs.SequenceID), "full": vs.Full, "cur": vs.Current,
-			"mem": int(vs.Size), "len": len(raw), "recs": recs}, vs.SequenceID})
+			"mem": int(vs.Size), "len": len(raw), "recs": recs,
+			"puts": int(vs.PutRecords), "dels": int(vs.DeleteRecords), "dkeys": int(vs.DeletedKeys), "dbytes": int(vs.DeletedBytes)}, vs.SequenceID})
 	}
 	sort.Slice(segs, func(i, j int) bool { return segs[i].seq < segs[j].seq })
 	out := make([]Ev, 0, len(segs))
